@@ -29,7 +29,7 @@ func ksCond(e ast.Expr) (string, error) {
 			if err != nil {
 				return "", err
 			}
-			return "(!" + a + ")", nil
+			return ksNot(a), nil
 		}
 	case *ast.SelectorExpr:
 		if squash(x) == "nodeResponse.Result" {
@@ -52,17 +52,60 @@ func ksCond(e ast.Expr) (string, error) {
 			return "(" + a + op + b + ")", nil
 		}
 		l, r := squash(x.X), squash(x.Y)
-		if l == "len(nodeResponse.Message)" && x.Op == token.GTR && r == "0" {
-			return "decide (n.message.length > 0)", nil
+		op := x.Op
+		// constants on the left: swap
+		if l == "0" || l == "1" || l == `""` || l == "true" || l == "false" {
+			l, r = r, l
+			switch op {
+			case token.LSS:
+				op = token.GTR
+			case token.GTR:
+				op = token.LSS
+			case token.LEQ:
+				op = token.GEQ
+			case token.GEQ:
+				op = token.LEQ
+			}
 		}
-		if l == "len(nodeResponse.Message)" && x.Op == token.NEQ && r == "0" {
-			return "decide (n.message.length ≠ 0)", nil
-		}
-		if l == "nodeResponse.Message" && x.Op == token.NEQ && r == `""` {
-			return "decide (n.message ≠ \"\")", nil
+		const nonEmpty = "decide (n.message.length > 0)"
+		switch {
+		case l == "len(nodeResponse.Message)" && (op == token.GTR && r == "0" || op == token.NEQ && r == "0" || op == token.GEQ && r == "1"):
+			return nonEmpty, nil
+		case l == "len(nodeResponse.Message)" && (op == token.EQL && r == "0" || op == token.LSS && r == "1" || op == token.LEQ && r == "0"):
+			return "(!" + nonEmpty + ")", nil
+		case l == "nodeResponse.Message" && op == token.NEQ && r == `""`:
+			return nonEmpty, nil // s != "" ⇔ len(s) > 0
+		case l == "nodeResponse.Message" && op == token.EQL && r == `""`:
+			return "(!" + nonEmpty + ")", nil
+		case l == "nodeResponse.Result" && (op == token.EQL && r == "true" || op == token.NEQ && r == "false"):
+			return "n.result", nil
+		case l == "nodeResponse.Result" && (op == token.EQL && r == "false" || op == token.NEQ && r == "true"):
+			return "(!n.result)", nil
 		}
 	}
 	return "", fmt.Errorf("streamKeyResp: unsupported condition %s", squash(e))
+}
+
+// ksNot negates a translated condition, cancelling a double negation.
+func ksNot(c string) string {
+	if strings.HasPrefix(c, "(!") && strings.HasSuffix(c, ")") {
+		inner := c[2 : len(c)-1]
+		depth, balanced := 0, true
+		for _, ch := range inner {
+			if ch == '(' {
+				depth++
+			} else if ch == ')' {
+				depth--
+				if depth < 0 {
+					balanced = false
+				}
+			}
+		}
+		if balanced && depth == 0 && !strings.Contains(inner, " && ") && !strings.Contains(inner, " || ") {
+			return inner
+		}
+	}
+	return "(!" + c + ")"
 }
 
 type ksEffects struct{ err, msg, keys, prim []string }
@@ -97,11 +140,16 @@ func ksWalk(stmts []ast.Stmt, path string, ef *ksEffects) error {
 				return err
 			}
 			if x.Else != nil {
-				eb, ok := x.Else.(*ast.BlockStmt)
-				if !ok {
-					return fmt.Errorf("streamKeyResp: unsupported else-if: %s", t)
+				var el []ast.Stmt
+				switch e := x.Else.(type) {
+				case *ast.BlockStmt:
+					el = e.List
+				case *ast.IfStmt:
+					el = []ast.Stmt{e}
+				default:
+					return fmt.Errorf("streamKeyResp: unsupported else: %s", t)
 				}
-				if err := ksWalk(eb.List, and("(!"+c+")"), ef); err != nil {
+				if err := ksWalk(el, and(ksNot(c)), ef); err != nil {
 					return err
 				}
 			}
@@ -120,7 +168,15 @@ func ksWalk(stmts []ast.Stmt, path string, ef *ksEffects) error {
 			}
 			ef.msg = append(ef.msg, path)
 		case *ast.RangeStmt:
-			if squash(x.X) != "nodeResponse.Keys" || len(x.Body.List) != 1 || squash(x.Body.List[0]) != "resp.Keys["+squash(x.Value)+"]++" {
+			// `for _, key := range nodeResponse.Keys { resp.Keys[key]++ }` or `for i := range … { resp.Keys[nodeResponse.Keys[i]]++ }`
+			okLoop := squash(x.X) == "nodeResponse.Keys" && len(x.Body.List) == 1
+			if okLoop {
+				b := squash(x.Body.List[0])
+				byValue := x.Value != nil && b == "resp.Keys["+squash(x.Value)+"]++"
+				byIndex := x.Value == nil && x.Key != nil && b == "resp.Keys[nodeResponse.Keys["+squash(x.Key)+"]]++"
+				okLoop = byValue || byIndex
+			}
+			if !okLoop {
 				return fmt.Errorf("streamKeyResp: unsupported loop %s", t)
 			}
 			ef.keys = append(ef.keys, path)
@@ -161,6 +217,48 @@ func genKeyStream(repo string) (string, error) {
 	tv, err := messageTypeValue(repo, "messageKeyResponseType")
 	if err != nil {
 		return "", err
+	}
+	// canonical names for the receiver, the parameters, the loop variable and the decode target, so that a
+	// renaming does not change the facts; trivial same-file helpers are inlined one level
+	ren := map[string]string{}
+	if rn := recvName(fd); rn != "" {
+		ren[rn] = "k"
+	}
+	for _, p := range fd.Type.Params.List {
+		for _, n := range p.Names {
+			switch squash(p.Type) {
+			case "*KeyResponse":
+				ren[n.Name] = "resp"
+			case "<-chan NodeResponse":
+				ren[n.Name] = "ch"
+			}
+		}
+	}
+	ast.Inspect(fd.Body, func(n ast.Node) bool {
+		switch x := n.(type) {
+		case *ast.RangeStmt:
+			if id, ok := x.Key.(*ast.Ident); ok && x.Value == nil && x.Tok == token.DEFINE {
+				if xid, ok := x.X.(*ast.Ident); ok && (xid.Name == "ch" || ren[xid.Name] == "ch") {
+					ren[id.Name] = "r"
+				}
+			}
+		case *ast.ValueSpec:
+			if x.Type != nil && squash(x.Type) == "nodeKeyResponse" && len(x.Names) == 1 {
+				ren[x.Names[0].Name] = "nodeResponse"
+			}
+		}
+		return true
+	})
+	renameIdents(fd.Body, ren)
+	if fd.Body.List, err = inlineHelpers(f, fd.Body.List); err != nil {
+		return "", err
+	}
+	for _, s := range fd.Body.List {
+		if rs, ok := s.(*ast.RangeStmt); ok {
+			if rs.Body.List, err = inlineHelpers(f, rs.Body.List); err != nil {
+				return "", err
+			}
+		}
 	}
 	var loop *ast.RangeStmt
 	targetOutside := false
@@ -228,7 +326,7 @@ func genKeyStream(repo string) (string, error) {
 			}
 			order = append(order, "countResp")
 		case *ast.IfStmt:
-			c := squash(x.Cond)
+			c := strings.Replace(squash(x.Cond), "len(r.Payload) == 0", "len(r.Payload) < 1", 1)
 			switch {
 			case x.Init == nil && c == "len(r.Payload) < 1 || messageType(r.Payload[0]) != messageKeyResponseType":
 				e, g := ksReject(x.Body)
